@@ -329,9 +329,58 @@ func c16Run(r *Run, h int) {
 			r.Count(fmt.Sprintf("marker:error(stored %d)", n))
 		}
 	}
-	for i := rng.Intn(4); i > 0; i-- {
-		if rng.Intn(2) == 0 {
+	// the same with a transaction that is not protected by its own uuid or by an index: an increment of the
+	// first marker row (applied twice, it shows)
+	bump := func() {
+		if len(markers) == 0 || markerTable == "" {
 			mark()
+			return
+		}
+		u := mkUUID(700000 + h*100)
+		read := func() (int64, bool) {
+			for _, row := range rig.im.dump() {
+				if row.Table == markerTable && row.UUID == u {
+					if v, ok := row.Row["n"]; ok && v.K == 'a' {
+						return v.A.I, true
+					}
+				}
+			}
+			return 0, false
+		}
+		before, ok := read()
+		if !ok {
+			mark()
+			return
+		}
+		op := OperationJ{Op: "mutate", Table: markerTable, Where: byUUID(u), Mutations: []MutationJ{{Col: "n", Mutator: "+=", Val: VA(AI(1))}}}
+		tctx, tcancel := ctxT(3 * time.Second)
+		res, err := a.Transact(tctx, op.toOvs())
+		tcancel()
+		good := err == nil && len(res) > 0
+		for _, x := range res {
+			if x.Error != "" {
+				good = false
+			}
+		}
+		after, _ := read()
+		cs.Markers++
+		if good && after-before != 1 {
+			markerFail = fmt.Sprintf("increment of %s: Transact returned results, applied %d times", u, after-before)
+		}
+		if !good && after-before > 1 {
+			markerFail = fmt.Sprintf("increment of %s: Transact returned an error, applied %d times", u, after-before)
+		}
+		if good {
+			r.Count("marker:increment ok")
+		} else {
+			r.Count(fmt.Sprintf("marker:increment error(applied %d)", after-before))
+		}
+	}
+	for i := rng.Intn(4); i > 0; i-- {
+		if k := rng.Intn(4); k == 0 {
+			mark()
+		} else if k == 1 {
+			bump()
 		} else {
 			commit(&cs.Before, 1)
 		}
